@@ -170,6 +170,26 @@ func InstallHostValues(vm *ds.Context) {
 	vm.GlobalValueStoreFunc = func(name string, v *ds.VMValue) { tbl[name] = v }
 }
 
+// WarmUp puts a VM into a well-used state: every construct kind has been parsed and run on it (accepted, rejected at parse
+// time, failed at run time, cut by the budget), with definitions under names (wu_*) no check uses. Checks that quantify over
+// "any prior state" run part of their cases on a warmed VM; differential oracles warm both sides.
+func WarmUp(vm *ds.Context) {
+	saved := vm.Config
+	vm.Config.EnableDiceWoD, vm.Config.EnableDiceCoC, vm.Config.EnableDiceFate, vm.Config.EnableDiceDoubleCross = true, true, true, true
+	vm.Config.OpCountLimit = 400
+	for _, p := range []string{
+		"wu_a = [1,2]; wu_a.push(3); wu_d = {'k': wu_a}", "func wu_f(a){ if a { return 2d1 }; a }; wu_f(1) + wu_f(0)", "&wu_c = 2d1; wu_c; &wu_c.k = 1", "wu_i = 0; while wu_i < 3 { wu_i = wu_i + 1; if wu_i == 2 { continue } }",
+		"`a{wu_i}{% wu_i %}`", "d4优势 + f + b + 2a11 + 2c11m10 + 2d", "^stwu_x:5 wu_y+1", "(1 +", "1 / 0", "while 1 { wu_i = wu_i + 1 }", "wu_a[0:1] = [7]; wu_a[0] = 9",
+	} {
+		func() {
+			defer func() { _ = recover() }()
+			_ = vm.Run(p)
+			_ = vm.GetDetailText()
+		}()
+	}
+	vm.Config = saved
+}
+
 // InstallNoopHooks installs every host extension point in the form a well-behaved host would: observers that read
 // what they are given (as a host does) and identity transformers. None of them acts.
 func InstallNoopHooks(vm *ds.Context) {
